@@ -180,6 +180,8 @@ inline bool read_file(const std::string& path, std::string& out) {
   return true;
 }
 inline std::string verif_root() { const char* e = getenv("VERIF_ROOT"); return e && *e ? std::string(e) : std::string("."); }
+// corpus directory (holding v0/, v1/, shipped/): $VERIF_C10_CORPUS if set (trial generations), else <verif root>/corpus
+inline std::string corpus_root() { const char* e = getenv("VERIF_C10_CORPUS"); return e && *e ? std::string(e) : verif_root() + "/corpus"; }
 inline std::string repo_root() { const char* e = getenv("VERIF_REPO"); return e && *e ? std::string(e) : std::string("/repo"); }
 
 // iterate entries of a theta-like sketch
